@@ -1647,3 +1647,19 @@ package objects
 //@   mode nopanic=off
 //@   at[flag] call objects.Node.IsSchedulable#1 after: assume ret == pnschedulable(arg0)
 //@   at[usable] call objects.Node.GetAvailableResource#1: assert arg0 == node && pnschedulable(node) && !hasOtherReservations
+
+// inherited properties (reload and creation): every property the parent hands down goes through filterParentProperty
+// under its own key (fpp names that answer) and is stored filtered; afterwards every configured property of the queue
+// itself is written over it (own value wins), and the merged map is what the queue ends up with
+//@ spec abstract fpp(key string, value string) string
+//@ func (sq *Queue) mergeProperties(parent map[string]string)
+//@   props C16 C07
+//@   sweep
+//@   mode nopanic=off
+//@   at[filtered] call objects.filterParentProperty#1: assert arg0 == key && arg1 == value
+//@   at[filteredanswer] call objects.filterParentProperty#1 after: assume ret == fpp(key, value)
+//@   loop 1: exhaustive
+//@   loop 1: each (key in parent) && parent[key] == fpp(key, value) && ncalls(objects.filterParentProperty) == iter(ncalls(objects.filterParentProperty)) + 1
+//@   loop 2: exhaustive
+//@   loop 2: each (key in parent) && parent[key] == value && ncalls(objects.filterParentProperty) == iter(ncalls(objects.filterParentProperty))
+//@   ensures[installed] sq.properties == parent && ndone(1) == 1 && ndone(2) == 1
